@@ -35,6 +35,7 @@ type Options struct {
 	SolverLog  string
 	Verbose    bool
 	EagerAssume bool
+	CrossCheck string // directory for solver transcripts of worker 0 (cross-solver replay); empty = off
 	BudgetSec  int // wall-clock budget per harness (0 = none); exhausted budget is reported as a bound hit
 }
 
@@ -306,6 +307,13 @@ func (e *Engine) newWorker(id int, h *Harness) (*Worker, error) {
 	s, err := sym.NewSolver(sname, mode, tb, e.Opt.TimeoutMs)
 	if err != nil {
 		return nil, err
+	}
+	if e.Opt.CrossCheck != "" && id == 0 {
+		f, err := os.Create(filepath.Join(e.Opt.CrossCheck, h.Name+".smt2"))
+		if err == nil {
+			s.Log = f
+			s.LogLimit = 1500
+		}
 	}
 	if e.Opt.SolverLog != "" {
 		f, err := os.Create(fmt.Sprintf("%s.%s.%d.smt2", e.Opt.SolverLog, h.Name, id))
